@@ -33,30 +33,30 @@ macro_rules! validator_unit {
 }
 
 // ---------------- quick tier: N = 6 ----------------
-// @unit C10.unique_name.n6 props=C10 kind=bounded bound=N<=6 fn=zbus_names::unique_name::validate_bytes timeout=600
+// @unit C10.unique_name.n6 props=C10 kind=bounded bound=N<=6 fn=zbus_names::unique_name::validate_bytes timeout=1200
 #[cfg(not(verif_skip_c10_unique_name__n6))]
 validator_unit!(c10_unique_name__n6, 6, 9, crate::unique_name::validate_bytes, spec_unique_name, "C10.unique_name.n6.accepts_iff_spec");
-// @unit C10.well_known_name.n6 props=C10 kind=bounded bound=N<=6 fn=zbus_names::well_known_name::validate_bytes timeout=600
+// @unit C10.well_known_name.n6 props=C10 kind=bounded bound=N<=6 fn=zbus_names::well_known_name::validate_bytes timeout=1200
 #[cfg(not(verif_skip_c10_well_known_name__n6))]
 validator_unit!(c10_well_known_name__n6, 6, 9, crate::well_known_name::validate_bytes, spec_well_known_name, "C10.well_known_name.n6.accepts_iff_spec");
-// @unit C10.interface_name.n6 props=C10 kind=bounded bound=N<=6 fn=zbus_names::interface_name::validate_bytes timeout=600
+// @unit C10.interface_name.n6 props=C10 kind=bounded bound=N<=6 fn=zbus_names::interface_name::validate_bytes timeout=1200
 #[cfg(not(verif_skip_c10_interface_name__n6))]
 validator_unit!(c10_interface_name__n6, 6, 9, crate::interface_name::validate_bytes, spec_interface_name, "C10.interface_name.n6.accepts_iff_spec");
-// @unit C10.member_name.n6 props=C10 kind=bounded bound=N<=6 fn=zbus_names::member_name::validate_bytes timeout=600
+// @unit C10.member_name.n6 props=C10 kind=bounded bound=N<=6 fn=zbus_names::member_name::validate_bytes timeout=1200
 #[cfg(not(verif_skip_c10_member_name__n6))]
 validator_unit!(c10_member_name__n6, 6, 9, crate::member_name::validate_bytes, spec_member_name, "C10.member_name.n6.accepts_iff_spec");
 
 // ---------------- thorough tier: N = 10 ----------------
-// @unit C10.unique_name.n10 props=C10 kind=bounded bound=N<=10 tier=thorough fn=zbus_names::unique_name::validate_bytes timeout=1800
+// @unit C10.unique_name.n10 props=C10 kind=bounded bound=N<=10 tier=thorough fn=zbus_names::unique_name::validate_bytes timeout=2400
 #[cfg(not(verif_skip_c10_unique_name__n10))]
 validator_unit!(c10_unique_name__n10, 10, 13, crate::unique_name::validate_bytes, spec_unique_name, "C10.unique_name.n10.accepts_iff_spec");
-// @unit C10.well_known_name.n10 props=C10 kind=bounded bound=N<=10 tier=thorough fn=zbus_names::well_known_name::validate_bytes timeout=1800
+// @unit C10.well_known_name.n10 props=C10 kind=bounded bound=N<=10 tier=thorough fn=zbus_names::well_known_name::validate_bytes timeout=2400
 #[cfg(not(verif_skip_c10_well_known_name__n10))]
 validator_unit!(c10_well_known_name__n10, 10, 13, crate::well_known_name::validate_bytes, spec_well_known_name, "C10.well_known_name.n10.accepts_iff_spec");
-// @unit C10.interface_name.n10 props=C10 kind=bounded bound=N<=10 tier=thorough fn=zbus_names::interface_name::validate_bytes timeout=1800
+// @unit C10.interface_name.n10 props=C10 kind=bounded bound=N<=10 tier=thorough fn=zbus_names::interface_name::validate_bytes timeout=2400
 #[cfg(not(verif_skip_c10_interface_name__n10))]
 validator_unit!(c10_interface_name__n10, 10, 13, crate::interface_name::validate_bytes, spec_interface_name, "C10.interface_name.n10.accepts_iff_spec");
-// @unit C10.member_name.n10 props=C10 kind=bounded bound=N<=10 tier=thorough fn=zbus_names::member_name::validate_bytes timeout=1800
+// @unit C10.member_name.n10 props=C10 kind=bounded bound=N<=10 tier=thorough fn=zbus_names::member_name::validate_bytes timeout=2400
 #[cfg(not(verif_skip_c10_member_name__n10))]
 validator_unit!(c10_member_name__n10, 10, 13, crate::member_name::validate_bytes, spec_member_name, "C10.member_name.n10.accepts_iff_spec");
 
@@ -92,25 +92,25 @@ macro_rules! try_from_unit {
         }
     };
 }
-// @unit C10.try_from.unique_name props=C10 kind=bounded bound=ASCII,N<=5 fn=<zbus_names::UniqueName.as.TryFrom<&str>>::try_from timeout=600
+// @unit C10.try_from.unique_name props=C10 kind=bounded bound=ASCII,N<=5 fn=<zbus_names::UniqueName.as.TryFrom<&str>>::try_from timeout=1200
 #[cfg(not(verif_skip_c10_try_from_unique_name__n5))]
 try_from_unit!(c10_try_from_unique_name__n5, 5, 8, UniqueName<'_>, spec_unique_name, "C10.try_from.unique_name.accepts_iff_spec", "C10.try_from.unique_name.same_string");
-// @unit C10.try_from.well_known_name props=C10 kind=bounded bound=ASCII,N<=5 fn=<zbus_names::WellKnownName.as.TryFrom<&str>>::try_from timeout=600
+// @unit C10.try_from.well_known_name props=C10 kind=bounded bound=ASCII,N<=5 fn=<zbus_names::WellKnownName.as.TryFrom<&str>>::try_from timeout=1200
 #[cfg(not(verif_skip_c10_try_from_well_known_name__n5))]
 try_from_unit!(c10_try_from_well_known_name__n5, 5, 8, WellKnownName<'_>, spec_well_known_name, "C10.try_from.well_known_name.accepts_iff_spec", "C10.try_from.well_known_name.same_string");
-// @unit C10.try_from.interface_name props=C10 kind=bounded bound=ASCII,N<=5 fn=<zbus_names::InterfaceName.as.TryFrom<&str>>::try_from timeout=600
+// @unit C10.try_from.interface_name props=C10 kind=bounded bound=ASCII,N<=5 fn=<zbus_names::InterfaceName.as.TryFrom<&str>>::try_from timeout=1200
 #[cfg(not(verif_skip_c10_try_from_interface_name__n5))]
 try_from_unit!(c10_try_from_interface_name__n5, 5, 8, InterfaceName<'_>, spec_interface_name, "C10.try_from.interface_name.accepts_iff_spec", "C10.try_from.interface_name.same_string");
-// @unit C10.try_from.error_name props=C10 kind=bounded bound=ASCII,N<=5 fn=<zbus_names::ErrorName.as.TryFrom<&str>>::try_from,zbus_names::error_name::validate timeout=600
+// @unit C10.try_from.error_name props=C10 kind=bounded bound=ASCII,N<=5 fn=<zbus_names::ErrorName.as.TryFrom<&str>>::try_from,zbus_names::error_name::validate timeout=1200
 #[cfg(not(verif_skip_c10_try_from_error_name__n5))]
 try_from_unit!(c10_try_from_error_name__n5, 5, 8, ErrorName<'_>, spec_interface_name, "C10.try_from.error_name.accepts_iff_spec", "C10.try_from.error_name.same_string");
-// @unit C10.try_from.member_name props=C10 kind=bounded bound=ASCII,N<=5 fn=<zbus_names::MemberName.as.TryFrom<&str>>::try_from timeout=600
+// @unit C10.try_from.member_name props=C10 kind=bounded bound=ASCII,N<=5 fn=<zbus_names::MemberName.as.TryFrom<&str>>::try_from timeout=1200
 #[cfg(not(verif_skip_c10_try_from_member_name__n5))]
 try_from_unit!(c10_try_from_member_name__n5, 5, 8, MemberName<'_>, spec_member_name, "C10.try_from.member_name.accepts_iff_spec", "C10.try_from.member_name.same_string");
-// @unit C10.try_from.property_name props=C10 kind=bounded bound=ASCII,N<=5 fn=<zbus_names::PropertyName.as.TryFrom<&str>>::try_from,zbus_names::property_name::ensure_correct_property_name timeout=600
+// @unit C10.try_from.property_name props=C10 kind=bounded bound=ASCII,N<=5 fn=<zbus_names::PropertyName.as.TryFrom<&str>>::try_from,zbus_names::property_name::ensure_correct_property_name timeout=1200
 #[cfg(not(verif_skip_c10_try_from_property_name__n5))]
 try_from_unit!(c10_try_from_property_name__n5, 5, 8, PropertyName<'_>, spec_property_name, "C10.try_from.property_name.accepts_iff_spec", "C10.try_from.property_name.same_string");
-// @unit C10.try_from.bus_name props=C10 kind=bounded bound=ASCII,N<=5 fn=<zbus_names::BusName.as.TryFrom<&str>>::try_from timeout=600
+// @unit C10.try_from.bus_name props=C10 kind=bounded bound=ASCII,N<=5 fn=<zbus_names::BusName.as.TryFrom<&str>>::try_from timeout=1200
 #[cfg(not(verif_skip_c10_try_from_bus_name__n5))]
 try_from_unit!(c10_try_from_bus_name__n5, 5, 8, BusName<'_>, spec_bus_name, "C10.try_from.bus_name.accepts_iff_spec", "C10.try_from.bus_name.same_string");
 
@@ -134,7 +134,7 @@ macro_rules! limit_unit {
         }
     };
 }
-// @unit C10.limit255.member_name props=C10 kind=instance bound=concrete-template,len=254..256 tier=thorough fn=zbus_names::member_name::validate_bytes timeout=900
+// @unit C10.limit255.member_name props=C10 kind=instance bound=concrete-template,len=254..256 tier=thorough fn=zbus_names::member_name::validate_bytes timeout=1800
 #[cfg(not(verif_skip_c10_limit255_member_name__len3))]
 limit_unit!(c10_limit255_member_name__len3, crate::member_name::validate_bytes, spec_member_name, b'a', b'a', b'a', b'a', "C10.limit255.member_name.accepts_iff_spec");
 
@@ -173,12 +173,12 @@ macro_rules! limit_concrete_unit {
     };
 }
 fn ok_forget<T, E>(r: core::result::Result<T, E>) -> bool { let ok = r.is_ok(); core::mem::forget(r); ok }
-// @unit C10.limit.member_name props=C10 kind=instance bound=concrete-names-of-255-and-256-bytes tier=thorough fn=zbus_names::member_name::validate_bytes,<zbus_names::MemberName.as.TryFrom<&str>>::try_from timeout=900
+// @unit C10.limit.member_name props=C10 kind=instance bound=concrete-names-of-255-and-256-bytes tier=thorough fn=zbus_names::member_name::validate_bytes,<zbus_names::MemberName.as.TryFrom<&str>>::try_from timeout=1800
 #[cfg(not(verif_skip_c10_limit_member_name__c255))]
 limit_concrete_unit!(c10_limit_member_name__c255, b'a', b'a', b'a', b'a',
     |s| crate::member_name::validate_bytes(s.as_bytes()).is_ok() && ok_forget(MemberName::try_from(s)),
     "C10.limit.member_name.255_bytes_accepted", "C10.limit.member_name.256_bytes_rejected");
-// @unit C10.limit.member_name_ctor props=C10 kind=instance bound=concrete-names-of-255-and-256-bytes fn=<zbus_names::MemberName.as.TryFrom<&str>>::try_from timeout=900
+// @unit C10.limit.member_name_ctor props=C10 kind=instance bound=concrete-names-of-255-and-256-bytes fn=<zbus_names::MemberName.as.TryFrom<&str>>::try_from timeout=1800
 #[cfg(not(verif_skip_c10_limit_member_name_ctor__c255))]
 limit_concrete_unit!(c10_limit_member_name_ctor__c255, b'a', b'a', b'a', b'a',
     |s| ok_forget(MemberName::try_from(s)),
@@ -211,14 +211,14 @@ macro_rules! try_from_value_unit {
         }
     };
 }
-// @unit C10.try_from_value.member_name props=C10 kind=bounded bound=ASCII,N<=4 fn=<zbus_names::MemberName.as.TryFrom<zvariant::Value>>::try_from timeout=600
+// @unit C10.try_from_value.member_name props=C10 kind=bounded bound=ASCII,N<=4 fn=<zbus_names::MemberName.as.TryFrom<zvariant::Value>>::try_from timeout=1200
 #[cfg(not(verif_skip_c10_try_from_value_member_name__n4))]
 try_from_value_unit!(c10_try_from_value_member_name__n4, 4, 7, MemberName<'_>, spec_member_name, "C10.try_from_value.member_name.valid_names_accepted", "C10.try_from_value.member_name.invalid_names_rejected");
-// @unit C10.try_from_value.bus_name props=C10 kind=bounded bound=ASCII,N<=4 fn=<zbus_names::BusName.as.TryFrom<zvariant::Value>>::try_from timeout=600
+// @unit C10.try_from_value.bus_name props=C10 kind=bounded bound=ASCII,N<=4 fn=<zbus_names::BusName.as.TryFrom<zvariant::Value>>::try_from timeout=1200
 #[cfg(not(verif_skip_c10_try_from_value_bus_name__n4))]
 try_from_value_unit!(c10_try_from_value_bus_name__n4, 4, 7, BusName<'_>, spec_bus_name, "C10.try_from_value.bus_name.valid_names_accepted", "C10.try_from_value.bus_name.invalid_names_rejected");
 
-// @unit CANARY.zbus_names props=CANARY kind=complete expect=fail timeout=300
+// @unit CANARY.zbus_names props=CANARY kind=complete expect=fail timeout=600
 #[cfg(not(verif_skip_canary_zbus_names_must_fail))]
 #[cfg(kani)]
 #[kani::proof]
